@@ -221,6 +221,9 @@ class Sched:
         return True
 
     def switch(self, me):
+        if self.killed and me is not self.main:
+            # a process being torn down that reaches another IPC point (e.g. from a `finally:` block) dies there too
+            raise Killed()
         self.n_switch += 1
         if self.n_switch > self.step_cap:
             raise SimAbort(Violation("no_progress", "run exceeded %d IPC events without terminating" % self.step_cap, step=self.n_switch))
